@@ -13,6 +13,7 @@ import (
 	"encoding/json"
 	"fmt"
 	"io"
+	"os"
 	"runtime/debug"
 	"sort"
 	"strconv"
@@ -153,6 +154,9 @@ func (p *P) runOne(r *core.Result, src *tape.Source, trace bool) {
 		s.target = 10 + src.Intn(141, "c18.len")
 	}
 	s.wantHuge = s.sweep == nil && src.Intn(300, "c18.hugedoc") == 299
+	if os.Getenv("VERIF_C18_DEBUG_HUGE") != "" && s.sweep == nil {
+		s.wantHuge = true // profiling aid only
+	}
 	if src.Intn(25, "c18.wfail") == 24 {
 		s.failWrite = 1 + src.Intn(40, "c18.wfailat")
 	}
